@@ -20,6 +20,12 @@ CHECKS = {
  "C15": dict(cat="model_checking", ref="DESIGN.md 4 C15", tech="TLA+ accumulator model checked with TLC (AccConsistent), trace validation against IncrementalEvalFields::init and the engine's own tables summed by TLC",
    text="The accumulator is a specification variable updated inside the set/remove micro-steps; TLC checks it equals the from-scratch value in every state of the bounded model. Every recorded event compares the carried (phase, mg, eg) with the recomputation, and events with equal keys must have equal static evaluation.",
    note="Table-sum clause is CodeView (drift) so that a refactoring of the evaluation terms does not alarm."),
+ "C06": dict(cat="model_checking", ref="DESIGN.md 4 C06", tech="TLA+ FEN grammar (Fen.tla: writer and reader over character codes) evaluated by TLC on recorded reader/writer calls; TLC-enumerated corruption families",
+   text="Fen.tla defines writer, reader and the rank-structure predicate. TLC enumerates canonical texts of base positions and ~350 systematic corruptions each; the harness feeds them, the FENs of walk positions and random strings to the real reader in the checked and optimised builds; TLC judges every event: no panic, bad rank structure rejected, grammar-accepted texts accepted with identical fields/key, canonical text reproduced, write-then-read identity. Writer text is also compared on every walk event.",
+   note="Counters beyond nine digits and move number 0 are outside the grammar (only crash-freedom required)."),
+ "C07": dict(cat="model_checking", ref="DESIGN.md 4 C07", tech="TLA+ geometry (ray walking) enumerated exhaustively by TLC and replayed against the engine's tables; index trace (hook H2) validated by TLC",
+   text="Exhaustive in both tiers: TLC enumerates every subset of every relevant blocker mask for both slider kinds (107,648 cases) with the attack set obtained by ray walking, all leaper/pawn tables and all 4,096 between pairs; the harness compares each with the real tables, also under 8 occupancies per case that differ only in irrelevant bits, and logs the table index of the lookups (hook), which TLC checks to lie inside the table.",
+   note="exhaustive: true for the slider/leaper/between spaces; perturbations are random samples of the irrelevant bits plus the two extremes.", engine="tla-game"),
 }
 
 def main():
